@@ -469,6 +469,30 @@ def a_r2_r3_properties(schema: Schema, rep: Report):
                     outer = chain[-1]
                     ok_ = text(outer.iter) == "self"
                     rep.check("A-R3", f"{cname}.{fn.name}:document-order", ok_, f"the members are walked inside an outer loop over {text(outer.iter)[:50]}: the result is grouped by that table instead of following the order of the members in the document" if not ok_ else "", f"{definer.mod.relpath}:{outer.lineno}")
+            # what is collected is a statement: a local the function itself treats as possibly None (bound to None, or
+            # tested against None somewhere) is appended only where `is not None` has been established
+            if ret_names:
+                from .loops import loop_views
+                from .paths import canon_atom
+
+                maybe_none = {t_.id for s_ in own_nodes(fn) if isinstance(s_, ast.Assign) and isinstance(s_.value, ast.Constant) and s_.value.value is None for t_ in s_.targets if isinstance(t_, ast.Name)}
+                for c_ in own_nodes(fn):
+                    if isinstance(c_, ast.Compare) and len(c_.ops) == 1 and isinstance(c_.ops[0], (ast.Is, ast.IsNot)) and isinstance(c_.left, ast.Name) and isinstance(c_.comparators[0], ast.Constant) and c_.comparators[0].value is None:
+                        maybe_none.add(c_.left.id)
+                for lv in loop_views(fn):
+                    if lv.kind != "for":
+                        continue
+                    for it in lv.items:
+                        nd = it.node
+                        call = nd.value if isinstance(nd, ast.Expr) and isinstance(nd.value, ast.Call) else None
+                        if call is None or not (isinstance(call.func, ast.Attribute) and call.func.attr == "append" and isinstance(call.func.value, ast.Name) and call.func.value.id in ret_names and len(call.args) == 1 and isinstance(call.args[0], ast.Name)):
+                            continue
+                        v_ = call.args[0].id
+                        if v_ not in maybe_none or it.complex:
+                            continue
+                        a_none, pol = canon_atom(ast.parse(f"{v_} is None", mode="eval").body)
+                        guarded = any(a == a_none and w != pol for a, w in it.filters) or any(a == v_ and w is True for a, w in it.filters)
+                        rep.check("A-R3", f"{cname}.{fn.name}:collects-only-present({v_})", guarded, f"{text(call)} is reached without `{v_} is not None`: a wrapper that carries no statement (error response, {v_} absent) puts None into the list, and everything that walks .statements trips over it" if not guarded else "", f"{definer.mod.relpath}:{call.lineno}")
             try:
                 nr = Narrower(schema, ci, definer, fn, rep).run()
             except AnalysisError as e:
